@@ -1,0 +1,9 @@
+//go:build verif
+
+package cli
+
+// ParseAddressForVerif exposes the unexported CLI address parser to the
+// verification harness. Compiled only with -tags verif.
+func ParseAddressForVerif(address string) ([]byte, error) {
+	return parseAddress(address)
+}
